@@ -78,7 +78,7 @@ def op_strategy(weights):
                      st.integers(0, 11)).map(build)
 
 
-def segment_strategy(weights, macros):
+def segment_strategy(weights, macros, extra=0):
     """A segment is a short op list: either one random op or a macro (fill: k x (rp, put) then
     advance; want: k x rg; drain: k x get).  Macros only raise the density of interesting
     states; the flat op list stays the case format."""
@@ -88,8 +88,14 @@ def segment_strategy(weights, macros):
         sel, k, a, b, c, op = t
         if sel >= macros:
             return [op]
-        m = sel % 4
+        m = (sel + a) % (4 + extra)
         k = 1 + k % 3
+        if m == 4:      # reserve several, cancel a granted one, reserve again, take in arbitrary order
+            return [["rg", a % 3, 0, 0], ["rg", (a + 1) % 3, 0, 0], ["cg", b % 3], ["rg", a % 3, 0, c % 7],
+                    ["get", c % 3], ["get", b % 2]]
+        if m == 5:      # arrival while reservations are outstanding
+            return [["rg", a % 3, 0, 0], ["rp", a % 3, 0], ["put", 0, 0, c % 3], ["adv", b % 8], ["rg", a % 3, 0, 0],
+                    ["get", c % 2], ["get", 0]]
         if m == 0:      # fill
             seg = []
             for i in range(k):
@@ -106,7 +112,7 @@ def segment_strategy(weights, macros):
                      st.integers(0, 11), single).map(build)
 
 
-def case(classes, weights, max_ops=40, min_ops=4, cap_max=4, macros=3):
+def case(classes, weights, max_ops=40, min_ops=4, cap_max=4, macros=3, extra=0):
     """macros = how many tenths of the segments are macros (0 disables)."""
     def flat(segs):
         ops = []
@@ -116,7 +122,7 @@ def case(classes, weights, max_ops=40, min_ops=4, cap_max=4, macros=3):
     return st.fixed_dictionaries({
         "subject": subject(classes, cap_max),
         "actors": st.integers(1, 3),
-        "ops": st.lists(segment_strategy(weights, macros), min_size=min_ops, max_size=max_ops).map(flat),
+        "ops": st.lists(segment_strategy(weights, macros, extra), min_size=min_ops, max_size=max_ops).map(flat),
     })
 
 
@@ -159,3 +165,52 @@ def shrink_candidates(case):
                 c = dict(case)
                 c["ops"] = ops[:i] + [op[:j] + [0] + op[j + 1:]] + ops[i + 1:]
                 yield c
+
+
+# ------------------------------------------------------------------------------------------------
+# bounded-exhaustive enumeration (thorough tier): every history up to ENUM_LEN operations over a small
+# alphabet, on every store class with capacity 1 and 2
+ENUM_ALPHABET = [["rp", 0, 0], ["rp", 0, 1], ["rg", 0, 0, 0], ["rg", 0, -1, 0], ["put", 0, 0, 0], ["put", 0, 2, 0], ["get", 0], ["get", 1],
+                 ["cp", 0], ["cg", 0], ["cg", 1], ["adv", 0]]
+ENUM_LEN = 5
+
+
+def enum_subjects():
+    subs = []
+    for cap in (1, 2):
+        subs.append({"cls": "ReservablePriorityReqStore", "capacity": cap})
+        subs.append({"cls": "ReservableReqStore", "capacity": cap})
+        subs.append({"cls": "ReservablePriorityReqFilterStore", "capacity": cap, "trigger_delay": 0})
+        subs.append({"cls": "BufferStore", "capacity": cap, "mode": "FIFO"})
+        subs.append({"cls": "BufferStore", "capacity": cap, "mode": "LIFO"})
+        subs.append({"cls": "FleetStore", "capacity": cap, "delay": 1, "transit": 0.5})
+        subs.append({"cls": "Buffer", "capacity": cap, "mode": "FIFO", "delay": 1, "delay_kind": "const"})
+        subs.append({"cls": "Fleet", "capacity": cap, "delay": 1, "transit": 0})
+    return subs
+
+
+def enumerate_histories(shard, nshards, alphabet=None, max_len=None, extra_ops=()):
+    import itertools
+    alphabet = list(alphabet or ENUM_ALPHABET) + list(extra_ops)
+    max_len = max_len or ENUM_LEN
+    i = 0
+    for subj in enum_subjects():
+        for n in range(1, max_len + 1):
+            for ops in itertools.product(alphabet, repeat=n):
+                if i % nshards == shard:
+                    yield {"subject": subj, "actors": 1, "ops": [list(o) for o in ops]}
+                i += 1
+
+
+def enum_definition(extra=""):
+    return ("all operation histories of length 1..%d over the alphabet %s%s on %d subjects (7 store classes / edges x capacity 1,2; "
+            "buffer FIFO and LIFO), one actor; 'adv 0' = advance 1 time unit, put delay index 0 = 0 and 2 = 1" % (
+                ENUM_LEN, ENUM_ALPHABET, extra, len(enum_subjects())))
+
+
+def is_enumerated(case, alphabet=None, max_len=None):
+    ops = case.get("ops", [])
+    if case.get("actors", 1) != 1 or len(ops) > (max_len or ENUM_LEN) or not ops:
+        return False
+    al = alphabet or ENUM_ALPHABET
+    return all(o in al for o in ops) and case.get("subject") in enum_subjects()
